@@ -224,6 +224,7 @@ class Check:
                 ns = [case["only_n"]]
             ctx.metric("campaigns")
             ctx.metric("N_values", len(ns))
+            M_first = M  # the clauses after this loop run under the first environment again
             for ei, plan in enumerate(case["plans"]):
                 if faults and ei > 0:
                     # with an entry that cannot be stat'ed, what the walk can learn about it (its type from the directory stream,
@@ -261,6 +262,7 @@ class Check:
                                                    {"query": q, "N": N, "M": M, "env": ei, "got_keys": [[x.decode("utf-8", "replace") for x in k] for k in ks[:6]],
                                                     "want_keys": [[x.decode("utf-8", "replace") for x in k] for k in keyseq0[:min(len(rows), 6)]]}))
                             return viols
+            M = M_first
             if case.get("session") and M >= 2 and not viols and case.get("only_n") is None and not case["plans"][0].get("tty") and not any(c in base for c in "\n\r"):
                 # limited and unlimited queries as neighbours in one interactive session (`fselect -i`): what one query decided about
                 # stopping early, counting or buffering must not reach the next
